@@ -427,10 +427,18 @@ def C20(c):
             r = run_suite(wide, "window", c.seed, c.tier, "C20-wide-window")
             r["tag"] = "u16"
             c.add_suite(r, sig_window)
+            # indicators in the wide build through their models at P = 65535 (the long-window cases use lengths 255..1000)
+            r = run_suite(wide, "ind", c.seed, c.tier, "C20-wide-ind")
+            r["tag"] = "u16-ind"
+            c.add_suite(r, sig_method, only=lambda mm: mm.get("class") in ("ind-init", "ind-value", "ind-signal", "ind-panic", "ind-shape"))
         f32 = need_harness(c, features=("value_type_f32",))
         if f32:
             r = run_suite(f32, "methods", c.seed, c.tier, "C20-f32")
             r["tag"] = "f32"
+            c.add_suite(r, sig_method)
+            # Renko at single precision: the lower bound of the brick size is the epsilon of the value type
+            r = run_suite(f32, "renko", c.seed, c.tier, "C20-f32-renko")
+            r["tag"] = "f32-renko"
             c.add_suite(r, sig_method)
     return c.finish(
         level="proof",
